@@ -49,6 +49,11 @@ void Optimizer::save(const std::string &path) const {
   writer << FileFormat::CurrentVersion::MINOR;
   writer << static_cast<std::uint32_t>(FileFormat::DataType::OPTIMIZER);
   writer << uint_configs << float_configs;
+
+  ofs.flush();
+  if (!ofs) {
+    PRIMITIV_THROW_ERROR("Could not write all data to file: " << path);
+  }
 }
 
 void Optimizer::add_inner(Parameter &param) {
